@@ -46,6 +46,7 @@ type World struct {
 	PoolConn  *fakePoolConn
 	Obs       *node.Obs
 	logger    log.Logger
+	rpc       *rpcWorld
 
 	SmtKeys    [][]byte
 	SmtRoot    []byte
